@@ -557,8 +557,11 @@ class Interp(object):
                     not isinstance(k, bool) and -len(base) <= k < len(base):
                 base[k] = v
             elif isinstance(base, bytearray):
-                # content no longer known: degrade where it is bound by name
-                if isinstance(t.value, ast.Name):
+                if isinstance(k, int) and not isinstance(k, bool) and \
+                        -len(base) <= k < len(base) and isinstance(v, int) and 0 <= v < 256:
+                    base[k] = v
+                elif isinstance(t.value, ast.Name):
+                    # content no longer known: degrade where it is bound by name
                     st.top()[t.value.id] = ABytes(len(base), "bytearray")
         elif isinstance(t, ast.Starred):
             self.assign(t.value, UNK, st, fr, stmt)
@@ -1335,6 +1338,11 @@ class Interp(object):
                 v = self.class_attr(base.mod, base.cnode, attr, st, base)
                 if v is not None:
                     return v
+                if attr != "__getattr__" and not attr.startswith("__"):
+                    ga = self.repo.find_method(base.mod, base.cnode, "__getattr__")
+                    if ga is not None:
+                        return self.call_func(AFunc(ga[0], ga[1], self_obj=base,
+                                                    cls=base.cnode), [attr], {}, st, node)
             return UNK
         if isinstance(base, ASuper):
             seen = False
@@ -1544,6 +1552,32 @@ class Interp(object):
             if isinstance(a, (dict, list, bytearray)):
                 self.havoc_container(st, a)
         return UNK
+
+    def probe_attr(self, obj, attr, st, node):
+        """hasattr() semantics on an object whose class defines __getattr__:
+        True / False / None."""
+        ga = self.repo.find_method(obj.mod, obj.cnode, "__getattr__")
+        if ga is None:
+            return None
+        fr = self.frames[-1]
+        tnode = ast.parse("try:\n    pass\nexcept AttributeError:\n    pass\n").body[0]
+        tr = TryRec(tnode, len(self.frames) - 1)
+        fr.tries.append(tr)
+        saved_outcomes = len(self.res.outcomes)
+        try:
+            self.call_func(AFunc(ga[0], ga[1], self_obj=obj, cls=obj.cnode), [attr], {}, st, node)
+        finally:
+            fr.tries.pop()
+        div = self._diverged
+        self._diverged = None
+        if div is not None:
+            # never returned: False iff everything that killed it was caught here
+            if all(k[0] == "caught" and k[1] == id(tnode) for k in div):
+                return False
+            return None
+        if tr.caught:
+            return None
+        return True
 
     def make_super(self, args, st):
         """super() / super(Cls, self): proxy that resolves attributes after
